@@ -356,12 +356,67 @@ func flowsIntoChunkSizeTest(v ssa.Value, seen map[ssa.Value]bool) bool {
 				return true
 			}
 		case token.GTR, token.GEQ, token.LSS, token.LEQ:
-			if isFieldLoad(bo.X, "ChunkSize") || isFieldLoad(bo.Y, "ChunkSize") {
+			if isChunkSize(bo.X) || isChunkSize(bo.Y) {
 				return true
 			}
 		}
 	}
 	return false
+}
+
+// isChunkSize: the ChunkSize field of the splitter — read directly, or handed in as a parameter that every call of the
+// function (in its package) feeds with that field (`removeFirstUntilOverlap(…, s.ChunkSize, …)`).
+func isChunkSize(v ssa.Value) bool {
+	if isFieldLoad(v, "ChunkSize") {
+		return true
+	}
+	p, ok := v.(*ssa.Parameter)
+	if !ok || p.Parent() == nil || p.Parent().Pkg == nil {
+		return false
+	}
+	g := p.Parent()
+	idx := -1
+	for i, q := range g.Params {
+		if q == p {
+			idx = i
+		}
+	}
+	if idx < 0 {
+		return false
+	}
+	fed, n := true, 0
+	var scan func(f *ssa.Function)
+	scan = func(f *ssa.Function) {
+		for _, b := range f.Blocks {
+			for _, in := range b.Instrs {
+				if c := callCommon(in); c != nil && c.StaticCallee() == g {
+					n++
+					if idx >= len(c.Args) || !isFieldLoad(c.Args[idx], "ChunkSize") {
+						fed = false
+					}
+				}
+			}
+		}
+		for _, a := range f.AnonFuncs {
+			scan(a)
+		}
+	}
+	for _, mem := range g.Pkg.Members {
+		switch m := mem.(type) {
+		case *ssa.Function:
+			scan(m)
+		case *ssa.Type:
+			for _, t := range []types.Type{m.Type(), types.NewPointer(m.Type())} {
+				ms := g.Prog.MethodSets.MethodSet(t)
+				for i := 0; i < ms.Len(); i++ {
+					if mf := g.Prog.MethodValue(ms.At(i)); mf != nil && mf.Pkg == g.Pkg {
+						scan(mf)
+					}
+				}
+			}
+		}
+	}
+	return fed && n > 0
 }
 
 func ruleGRDsize(w *World, r *Report) {
